@@ -122,6 +122,20 @@ func checkTag(r *vk.Run, tc tagCase) {
 			r.Violation(key+"/modts", fmt.Sprintf("ModTagTimestamp(%d) on tag len=%d: parsed ts/err = %v/%v", nts, tc.Len, tg, err), rp)
 		}
 	}
+	// ... also when the header's timestamp has been re-based without the bytes (lal's file pump does that before
+	// it hands a tag to its callback, and callers then write the header's value back with ModTagTimestamp)
+	edges := []uint32{0, 256, 0xFFFFFF, 0x1000000, 0x1000100, 0x2000000, 0xFFFFFFFF}
+	for _, hts := range edges {
+		for _, nts := range edges {
+			cl := httpflv.Tag{Header: ft.Header, Raw: append([]byte{}, ft.Raw...)}
+			cl.Header.Timestamp = hts
+			cl.ModTagTimestamp(nts)
+			tg, rest, err := ref.ParseFlvTags(cl.Raw)
+			if err != nil || rest != 0 || len(tg) != 1 || tg[0].Ts != nts || cl.Header.Timestamp != nts {
+				r.Violation(key+"/modts-rebased", fmt.Sprintf("tag with timestamp %d in its bytes and %d in its header: ModTagTimestamp(%d) leaves %v in the bytes (err=%v)", tc.Ts, hts, nts, tg, err), rp)
+			}
+		}
+	}
 }
 
 func sameTag(a, b ref.FlvTag) bool {
